@@ -635,6 +635,75 @@ CONFIG['C09'] = {'assumptions': ['request bodies announce their length (ContentL
                   'structurally by the regenerated facts (per_request_writes_are_private) and observed by stream R; not derived from the Go memory '
                   'model']}
 
+CONFIG['C15'] = {'assumptions': ['writers honour io.Writer ("Write must return a non-nil error if it returns n < len(p)"): for a writer that lies about a short '
+                 'write the clause "success implies every byte was written" is not asked (the single-Write paths of the producers do not look at the '
+                 'count; io.Copy and bytes.Buffer.WriteTo do and report io.ErrShortWrite) - such writers are generated, compared with the model and '
+                 'judged on all other clauses',
+                 'a nil stream argument is outside "closable payload is always closed" (the producer returns before looking at the payload); it must '
+                 'still yield an error',
+                 '"a closable source payload is always closed" is read for the byte-stream producer (the only codec that accepts readers; the text '
+                 'producer renders a reader struct as JSON)',
+                 'the text consumer need not hand an EMPTY input to a TextUnmarshaler (upstream text_test.go requires success there for an '
+                 'unmarshaler that rejects empty text)',
+                 'scripted streams are finite (finite schedule, then they deliver what is asked): bytes.Buffer.ReadFrom and io.Copy have no limit on '
+                 'consecutive empty reads, on a reader returning (0, nil) forever they do not return - the model has the outcome `hang` for it and '
+                 'the theorems show it unreachable for scripted streams'],
+ 'go_entry': 'runtime.ByteStreamConsumer / ByteStreamProducer (with and without runtime.ClosesStream), runtime.TextConsumer / TextProducer, '
+             'runtime.DiscardConsumer / DiscardProducer .Consume/.Produce; stream J: runtime.JSONConsumer/JSONProducer, '
+             'runtime.XMLConsumer/XMLProducer, yamlpc.YAMLConsumer/YAMLProducer',
+ 'model_fn': 'consume / produce (bcInner, bcDispatch, bcStore, tcInner, tcStore, bpInner, bpDispatch, tpInner over Stream.readFromLoop = '
+             'bytes.Buffer.ReadFrom, Stream.copyLoop = io.Copy, bufWriteTo = bytes.Buffer.WriteTo, writeOnce)',
+ 'partial': ['JSON, XML and YAML round trips are NOT proved: the codecs are calls into encoding/json, encoding/xml and gopkg.in/yaml.v3 (external). '
+             'FullStatement keeps them as the parameter ExternalRoundTrips; full_statement_partial proves the text / byte-stream / discard part. '
+             'Support: stream J of the harness is a TEST (documents and generic trees, integers beyond 2^53 and beyond 2^64 as json.Number, <>& in '
+             'strings, nested maps/slices; canonical dump before = after, no HTML escaping on the JSON wire); the UseNumber and SetEscapeHTML(false) '
+             'calls are facts extracted from json.go (json_option_facts)',
+             'the JSON rendering of struct/slice sources of the text and byte-stream producers (swag.WriteJSON) is external: proved is that exactly '
+             'the rendering is written'],
+ 'quick_n': 40000,
+ 'rule': 'stream X: one Consume or Produce call = direction x codec {byte stream, text, discard} x ClosesStream on/off x stream argument {nil '
+         'interface, Read/Write only, with Close} x 42 kinds of data value (string, named string, []byte, named []byte, pointers to them, '
+         '*interface{} holding nil/string/[]byte/int, int, *int, struct, *struct, []string, *[]string, **string, map, *bytes.Buffer, scripted '
+         'io.Writer, scripted io.Reader, scripted io.ReadCloser, io.WriterTo+io.ReadCloser, Binary(Un)Marshaler, Text(Un)Marshaler, error, '
+         'fmt.Stringer; the nil interface and the typed-nil pointer of every pointer kind) x content (0..11.5k bytes quick, up to 70k thorough, '
+         'sizes around bytes.MinRead=512, 4096 and the 32 KiB io.Copy buffer; position-dependent bytes over all 256 values, i.e. binary and invalid '
+         'UTF-8; pre-populated destinations) x (un)marshal failure x scripted reader (terminal EOF or error = error at any offset, delivered with '
+         'the last bytes or alone; per-call schedule: zero-length reads, runs of 100-250 zero-length reads, 1-byte chunks all the way, sizes around '
+         '512/32768; Close error) x scripted writer (per-call caps = short writes, total capacity anywhere in [0, len+2] = write error at any '
+         'offset, 2.5% writers that lie about short writes, Close error). EVERY run starts with the sweep kind x direction x codec x stream x '
+         'closing option on two contents; thorough adds every chunking of payloads of <= 5 bytes (with and without interleaved zero-length reads) x '
+         'terminal x together for 10 destination/source kinds and a write error at every offset. Exec reports: error class, the reflection/interface '
+         "signature of the data value (compared with the model's dispatch table), content of the data value afterwards, Close counts of both "
+         'scripted streams, bytes left in the reader, bytes received by the writer, whether handed-in byte slices were left intact, and '
+         "encoding/json's rendering of an equal value. Stream J (1/8 of the cases, a TEST of the external libraries, tagged ~test): generated "
+         'documents (typed struct: strings with <>&"\' and YAML/XML-significant text, int64/uint64 extremes, floats, []byte, nested pointers, '
+         'slices, maps) and generic trees (json.Number beyond 2^64 and beyond float64 precision, nested maps/slices) through Producer then Consumer; '
+         'canonical dumps before/after are compared. A case is trivial when the codec is discard or the case belongs to stream J; distinct = '
+         'distinct input lines.',
+ 'search_s': 45,
+ 'thorough_n': 60000,
+ 'thorough_seeds': 3,
+ 'trusted_base': ['reading of the property text into the Lean `Spec` (human step, RtVerif/Model/<id>.lean)',
+                  'correspondence check (differential: Go harness /verif/harness -> protocol lines -> compiled Lean driver rtdriver evaluating Model '
+                  'and Spec); coverage bounded by the generators',
+                  "factgen (go/ast extraction of constants/tables into RtVerif/Gen/Facts.lean) and the driver's line parser",
+                  'the scripted reader/writer of the harness (props/c15.go c15Src, c15Snk) are what Stream.Src / Stream.Snk model; the streams '
+                  'handed to the codecs implement only Read/Write(/Close), so io.Copy takes its generic loop (no WriterTo/ReaderFrom fast path on '
+                  'the scripted side)',
+                  'hand models of bytes.Buffer.ReadFrom (Stream.readFromLoop; the sizes of the slices it offers are a parameter - the outcome is '
+                  'PROVED independent of them), io.Copy (Stream.copyLoop, 32 KiB buffer) and bytes.Buffer.WriteTo (bufWriteTo), transcribed from '
+                  '$GOROOT/src; bytes.MinRead and the copy buffer size are regenerated facts; their behaviour is checked differentially on every '
+                  'case',
+                  'Go dynamic dispatch (type switches, interface assertions, reflect.Kind, reflect.Indirect) is modelled by the table `feat` over '
+                  'the 42 kinds; the harness recomputes the signature of every data value by reflection and interface assertions and the driver '
+                  'compares it with the table',
+                  'the kinds are concrete harness types: the one io.ReaderFrom / io.WriterTo is *bytes.Buffer (or delegates to one), (un)marshalers '
+                  'store/return a copy of the bytes or fail with a scripted error',
+                  'swag.WriteJSON (struct/slice sources) is external: its value on the case is taken from encoding/json.Marshal of an equal value '
+                  'computed by the harness (output field jaux); the theorems say that exactly these bytes are written',
+                  'order of the checks inside the four codec bodies and the two JSON option calls: extracted by factgen (go/ast) and pinned by the '
+                  'theorems code_shape_facts / json_option_facts']}
+
 # properties not claimed (with the reason) and hook commits in /repo (none so far: no hooks needed)
 NOT_APPLICABLE = {}
 HOOK_COMMITS = []
